@@ -1234,6 +1234,11 @@ func (g *generator) nextInner() Op {
 			return Op{Op: "AddListener", L: l}
 		case "gccheck":
 			return Op{Op: "GCCheck"}
+		case "regtypes":
+			if len(ecs.ComponentIDs(g.x.w)) > 40 {
+				continue
+			}
+			return Op{Op: "RegisterTypes", N: 1 + g.rng.Intn(6)}
 		case "dump":
 			return Op{Op: "Dump"}
 		case "load":
